@@ -116,16 +116,36 @@ def reads_of(v: Any) -> set:
     return out
 
 
+def _sum_arity(v: Any) -> int:
+    """The largest number of message-reading terms added up in one sum inside v (0: no such arithmetic)."""
+    best = 0
+    if isinstance(v, T.Lin):
+        best = sum(1 for t in v.coef if reads_of(t))
+        for t in v.coef:
+            best = max(best, _sum_arity(t))
+    elif isinstance(v, tuple):
+        for x in v:
+            best = max(best, _sum_arity(x))
+    return best
+
+
 def _foreign_composite(v: Any, want: List[Any]) -> bool:
+    """The getter reads the bytes a listed form reads, cuts them into pieces and ADDS UP more pieces than any listed
+    form does: a decoding of its own.  (Pieces merely concatenated in another order, or one field at another offset or
+    width, are the slips this rule exists to report: those stay comparable.)"""
     rv = reads_of(v)
-    if len(rv) < 2 or any(b is None for _, b in rv):
+    ar = _sum_arity(v)
+    if ar < 2 or len(rv) < 2 or any(b is None for _, b in rv):
         return False
     span = (min(a for a, _ in rv), max(b for _, b in rv))
+    same_span = False
     for w in want:
         rw = reads_of(w)
-        if rw and not any(b is None for _, b in rw) and rw != rv and (min(a for a, _ in rw), max(b for _, b in rw)) == span:
-            return True
-    return False
+        if not rw or any(b is None for _, b in rw) or _sum_arity(w) >= ar:
+            return False
+        if (min(a for a, _ in rw), max(b for _, b in rw)) == span:
+            same_span = True
+    return same_span
 
 
 def run(prog: Program, rep: Report, tier: str) -> None:
